@@ -214,7 +214,7 @@ macro_rules! LV {
 /// one affine type with its homogeneous matrix type and vector types
 macro_rules! run_aff {
     ($cx:ident, $c:ident, $A:ident, $S:ident, $N:tt, $L:ident, $H:ident, $lin:ident, $from_lt:ident,
-     [$(($V:ident, $tp:ident, $tv:ident)),+], [$(($HV:ident, $htp:ident, $htv:ident)),*]) => {{
+     [$(($V:ident, $tp:ident, $tv:ident)),+], [$(($HV:ident, $htp:ident, $htv:ident)),*], [$($HX:ident),*]) => {{
         let e = &$c["exp"];
         let name = stringify!($A);
         let skip = $cx.only_ty.as_ref().map(|t| t != name).unwrap_or(false);
@@ -255,6 +255,14 @@ macro_rules! run_aff {
             let gm = <$H as MA>::of_ints(&g);
             out.push(("affine*matrix".into(), "a * m", ints(&e["a_g"]), (a * gm).to_cols_array().iter().map(|c| *c as f64).collect()));
             out.push(("matrix*affine".into(), "m * a", ints(&e["g_a"]), (gm * a).to_cols_array().iter().map(|c| *c as f64).collect()));
+            // the other homogeneous matrix type of the same size (Mat3A for Affine2): conversion and both mixed products
+            $(
+                let hx: $HX = a.into();
+                out.push(("into matrix".into(), concat!("From -> ", stringify!($HX)), ints(&e["hom"]), hx.to_cols_array().iter().map(|c| *c as f64).collect()));
+                let gx = <$HX as MA>::of_ints(&g);
+                out.push(("affine*matrix".into(), concat!("a * m (", stringify!($HX), ")"), ints(&e["a_g"]), (a * gx).to_cols_array().iter().map(|c| *c as f64).collect()));
+                out.push(("matrix*affine".into(), concat!("m * a (", stringify!($HX), ")"), ints(&e["g_a"]), (gx * a).to_cols_array().iter().map(|c| *c as f64).collect()));
+            )*
             // the matrix form acts the same on points and vectors
             $(
                 let x = vecn!($HV, $S, p, $N);
@@ -290,12 +298,12 @@ macro_rules! run_aff {
 fn run_aff_case(cx: &mut Cx, c: &Value) {
     match c["n"].as_u64().unwrap() {
         2 => {
-            run_aff!(cx, c, Affine2, f32, 2, Mat2, Mat3, matrix2, from_mat2_translation, [(Vec2, transform_point2, transform_vector2)], [(Vec2, transform_point2, transform_vector2)]);
-            run_aff!(cx, c, DAffine2, f64, 2, DMat2, DMat3, matrix2, from_mat2_translation, [(DVec2, transform_point2, transform_vector2)], [(DVec2, transform_point2, transform_vector2)]);
+            run_aff!(cx, c, Affine2, f32, 2, Mat2, Mat3, matrix2, from_mat2_translation, [(Vec2, transform_point2, transform_vector2)], [(Vec2, transform_point2, transform_vector2)], [Mat3A]);
+            run_aff!(cx, c, DAffine2, f64, 2, DMat2, DMat3, matrix2, from_mat2_translation, [(DVec2, transform_point2, transform_vector2)], [(DVec2, transform_point2, transform_vector2)], []);
         }
         _ => {
-            run_aff!(cx, c, Affine3A, f32, 3, Mat3, Mat4, matrix3, from_mat3_translation, [(Vec3, transform_point3, transform_vector3), (Vec3A, transform_point3a, transform_vector3a)], [(Vec3, transform_point3, transform_vector3), (Vec3A, transform_point3a, transform_vector3a)]);
-            run_aff!(cx, c, DAffine3, f64, 3, DMat3, DMat4, matrix3, from_mat3_translation, [(DVec3, transform_point3, transform_vector3)], [(DVec3, transform_point3, transform_vector3)]);
+            run_aff!(cx, c, Affine3A, f32, 3, Mat3, Mat4, matrix3, from_mat3_translation, [(Vec3, transform_point3, transform_vector3), (Vec3A, transform_point3a, transform_vector3a)], [(Vec3, transform_point3, transform_vector3), (Vec3A, transform_point3a, transform_vector3a)], []);
+            run_aff!(cx, c, DAffine3, f64, 3, DMat3, DMat4, matrix3, from_mat3_translation, [(DVec3, transform_point3, transform_vector3)], [(DVec3, transform_point3, transform_vector3)], []);
         }
     }
 }
